@@ -65,13 +65,19 @@ var (
 )
 
 // c11Fn resolves an anchor: on a view program the view of the function, if it has one.
+// calcCaches and sortedArray are located by their role when the method of that name does not exist
+// (c11_anchor.go); an anchor that cannot be located aborts the clause as undecided.
 func c11Fn(c *core.Ctx, name string) *core.FuncInfo {
-	if v := c11ViewOfProg[c.P]; v != nil && v.Has[name] {
-		if f := c.P.Func(name + c11ViewSuffix); f != nil {
+	actual := c11ActualName(c.P, name)
+	if actual == "" {
+		return c.Fn(name)
+	}
+	if v := c11ViewOfProg[c.P]; v != nil && v.Has[actual] {
+		if f := c.P.Func(actual + c11ViewSuffix); f != nil {
 			return f
 		}
 	}
-	return c.Fn(name)
+	return c.Fn(actual)
 }
 
 func c11Alarms(c *core.Ctx) int {
@@ -154,12 +160,13 @@ func c11ViewFor(p *core.Prog) (view *c11View) {
 	}
 	in := &c11Inl{p: p, pk: pk.Types, info: pk.TypesInfo, keep: map[string]bool{}, orig: map[ast.Node]ast.Node{},
 		done: map[ast.Node]bool{}, onStack: map[*core.FuncInfo]bool{}, looked: map[string]bool{}, imports: map[string]string{}, fresh: map[*ast.Ident]bool{}}
-	for _, a := range c11Anchors {
+	anchors := c11AnchorsOf(p)
+	for _, a := range anchors {
 		in.keep[a] = true
 	}
 	has := map[string]bool{}
 	var decls []*ast.FuncDecl
-	for _, a := range c11Anchors {
+	for _, a := range anchors {
 		f := p.Func(a)
 		if f == nil || f.Decl == nil || f.Decl.Body == nil {
 			continue
